@@ -385,3 +385,39 @@ mod tests {
     }];
 }
 */
+
+/// Read-only view of the syscall bookkeeping for the verification harness (`--cfg ax_verif` only)
+#[cfg(ax_verif)]
+impl Axecutor {
+    /// (brk_start, brk_length)
+    pub fn verif_brk(&self) -> (u64, u64) {
+        (
+            self.state.syscalls.brk_start,
+            self.state.syscalls.brk_length,
+        )
+    }
+
+    /// (read_end, write_end, unread bytes) for every pipe, sorted by read end
+    pub fn verif_pipes(&self) -> Vec<(u64, u64, Vec<u8>)> {
+        let mut v: Vec<(u64, u64, Vec<u8>)> = self
+            .state
+            .syscalls
+            .pipes_read_ends
+            .iter()
+            .map(|(r, w)| {
+                (
+                    *r,
+                    *w,
+                    self.state
+                        .syscalls
+                        .pipe_contents
+                        .get(r)
+                        .cloned()
+                        .unwrap_or_default(),
+                )
+            })
+            .collect();
+        v.sort();
+        v
+    }
+}
